@@ -286,8 +286,40 @@ def check_calendar(ctx, cal, pname, cls=None):
         ctx.violation('add-not-idempotent', inp, 'a second add_missing_timezones() call changed the calendar', cls)
 
 
+def check_learned_zone(ctx):
+    """history: an id the provider does not know stays missing; once a VTIMEZONE for it has been parsed (the
+    provider now knows it), another calendar that uses the id must get its VTIMEZONE from add_missing_timezones"""
+    import icalendar
+    from icalendar import Calendar
+    for pname in ('zoneinfo', 'pytz'):
+        getattr(icalendar, 'use_' + pname)()
+        tzid = 'Verif/Learned-' + pname + '-' + str(ctx.seed)
+        use = ('BEGIN:VCALENDAR\r\nBEGIN:VEVENT\r\nUID:1\r\nDTSTART;TZID=%s:20240101T100000\r\nEND:VEVENT\r\nEND:VCALENDAR\r\n' % tzid).encode()
+        define = ('BEGIN:VCALENDAR\r\nBEGIN:VTIMEZONE\r\nTZID:%s\r\nBEGIN:STANDARD\r\nDTSTART:19700101T000000\r\n'
+                  'TZOFFSETFROM:+0300\r\nTZOFFSETTO:+0300\r\nTZNAME:X3\r\nEND:STANDARD\r\nEND:VTIMEZONE\r\nEND:VCALENDAR\r\n' % tzid).encode()
+        ctx.evaluated(('learned-zone', pname))
+        try:
+            c1 = Calendar.from_ical(use)
+            c1.add_missing_timezones()
+            if c1.get_missing_tzids() != {tzid} or c1.timezones:
+                ctx.violation('history', {'provider': pname, 'tzid': tzid}, f'an unknown id did not stay missing: {c1.get_missing_tzids()}')
+            Calendar.from_ical(define)          # the provider learns the id from this calendar
+            c2 = Calendar.from_ical(use)
+            knows = icalendar.timezone.tzp.timezone(tzid) is not None
+            c2.add_missing_timezones()
+            names = [t.tz_name for t in c2.timezones]
+            if knows and (names != [tzid] or c2.get_missing_tzids()):
+                ctx.violation('history', {'provider': pname, 'tzid': tzid},
+                              f'the provider knows {tzid} now, but add_missing_timezones left VTIMEZONEs {names}, missing {c2.get_missing_tzids()}')
+        except Exception as e:  # noqa: BLE001
+            ctx.violation('history', {'provider': pname, 'tzid': tzid}, f'{type(e).__name__}: {e}')
+        finally:
+            icalendar.use_zoneinfo()
+
+
 def oracle(ctx):
     import icalendar
+    check_learned_zone(ctx)
     rng = ctx.rng
     deep = ctx.tier == 'thorough' or ctx.escalate
     max_depth = 6 if deep else 4
